@@ -237,6 +237,7 @@ def u_cancel_group(ip: Interp, th: PoolTheory):
             else:
                 no_exit(ip, s, "noraise:" + v.val.cls, ("C07",))
             continue
+        ip.cover(s, "cancel_group:normal-exit")
         ip.require(s, "post:group-was-known", p0.G.has(g.t), ("C07",))
         ip.require(s, "post:group-forgotten-name-free", z3.Not(p1.G.has(g.t)), ("C07", "C10"))
         ip.require(s, "post:other-groups-untouched", z3.ForAll([h], z3.Implies(h != g.t, z3.And(p1.G.has(h) == p0.G.has(h), z3.Select(p1.G.cols[0], h) == z3.Select(p0.G.cols[0], h),
@@ -739,6 +740,7 @@ def u_flush(ip: Interp, th: PoolTheory):
             ip.require(s, "raises:only-without-return_exceptions", z3.Not(re.t), ("C13", "C12"))
             ip.require(s, f"raises:only-an-exception-of-a-task-or-callback:{v.val.cls}/{origin}", z3.BoolVal(origin == "user"), ("C12",))
             continue
+        ip.cover(s, "flush:normal-exit")
         finished_before = lambda ii: z3.And(z3.Or(p0.E.has(ii)), z3.Select(p0.loc, p0.Ev(ii)) == L_DONE)
         ip.require(s, "post:tasks-finished-before-the-call-are-forgotten", z3.ForAll([i], z3.Implies(finished_before(i), z3.And(z3.Not(p1.E.has(i)), z3.Not(p1.C.has(i)), z3.Not(p1.R.has(i))))), ("C13",))
 
@@ -784,6 +786,7 @@ def u_gather_and_close(ip: Interp, th: PoolTheory):
             continue
         p1 = PView(s)
         t = z3.Const("t!p", Ref)
+        ip.cover(s, "gather_and_close:normal-exit")
         ip.require(s, "post:closed", p1.closed, ("C08",))
         ip.require(s, "post:holds-no-tasks", z3.And(p1.R.card == 0, p1.C.card == 0, p1.E.card == 0), ("C08",))
         ip.require(s, "post:returned-only-after-every-spawner-finished", z3.ForAll([t], z3.Implies(p1.is_spawner(t), z3.Or(z3.Select(p1.loc, t) == L_DONE, z3.Select(p1.creq, t)))), ("C08",))
@@ -980,6 +983,7 @@ def u_arg_consumer(ip: Interp, th: ConsumerTheory):
         if isinstance(v, Exit):
             ip.require(s, f"noraise:{v.val.cls}:consumer-must-not-die", z3.BoolVal(False), ("C05", "C12", "C08"))
             continue
+        ip.cover(s, "consumer:thread-end")
         ip.require(s, "end:no-slot-retained", z3.And(z3.Not(th.ghost(s, "tok", me)), z3.Not(th.ghost(s, "mtok", me))), ("C02", "C05"))
         cancelled = any(t in ("_start_task:cancelled", "cancelled-pending", "cancelled-granted") for t in s.tags)
         if cancelled:
